@@ -765,6 +765,10 @@ def _fam_rc(b, d):
         kind = ['cmd-abs', 'cmd-sh', 'cmd-ref', 'file-exe', 'source-exe', 'cmd-sys', 'cmd-py'][rc % 7]
         out = OUT_TEXTS[rc % len(OUT_TEXTS)]
         err = OUT_TEXTS[(rc // 3) % len(OUT_TEXTS)]
+        odd_err = v == 1 and kind != 'cmd-sh' and rc % 3 == 1
+        if odd_err:
+            # what the action writes on stderr is shown in the failure message of a failing exit-code assertion
+            err = INSTR_ERR_TEXTS[(rc // 3) % len(INSTR_ERR_TEXTS)]
         sp = b.spec(rc=rc, out=out, err=err)
         if kind == 'cmd-sh' and (rc // 7) % 2:
             sp['rc'] = (rc + 7) % 256  # the shell's own `exit` decides
@@ -776,7 +780,8 @@ def _fam_rc(b, d):
         else:
             b.case['mode'] = 'normal'
             b.assert_act(wrong='exit-code', which=('exit-code',))
-            b.assert_act()  # not reached
+            if not odd_err:
+                b.assert_act()  # not reached
         _cleanup_marker(b)
     elif v == 2:
         form = ['run', 'pct', 'shell'][rc % 3]
